@@ -31,10 +31,14 @@ func newLiteralValidator(node schema.Node, parent validator) *literalValidator {
 	}
 }
 
+// newNullValidator accepts any kind of node: the example next to a list of
+// types may be an object or an array.
 func newNullValidator(node schema.Node, parent validator) *literalValidator {
-	v := newLiteralValidator(node, parent)
-	v.nullOnly = true
-	return v
+	return &literalValidator{
+		node_:    node,
+		parent_:  parent,
+		nullOnly: true,
+	}
 }
 
 func (v literalValidator) node() schema.Node {
